@@ -711,7 +711,7 @@ fn main() {
     let args = parse_args();
     let mut rep = Report::new(
         "C14",
-        "one case = one handle lifetime over a scripted device: manifest (0..6 entries, device/buffer/reserved file types, duplicate and unordered versions incl. subminor >= 256, plain / real zip archives with 0/1/2 files, hash present / absent / wrong), file sizes 0 .. several acknowledge chunks, negotiated acknowledge lengths 64 .. u32::MAX, corruptions (bit flips in file, hash, zip directory, zip data; truncated tables and files; advertised sizes / counts beyond the map), optional failure of the k-th device command, repeated calls; non-trivial = genapi returned a non-empty document; distinct by request hash",
+        "one case = one handle lifetime over a scripted device: manifest (0..6 entries, device/buffer/reserved file types, duplicate and unordered versions incl. subminor >= 256, plain / real zip archives with 0/1/2 files, hash present / absent / wrong), file sizes 0 .. several acknowledge chunks, negotiated acknowledge lengths 64 .. u32::MAX, corruptions (bit flips in file, hash, zip directory, zip data; truncated tables and files; advertised sizes / counts beyond the map; absurd sizes 2^40, 2^63, u64::MAX; tables / files ending at or beyond 2^64; counts 2^58, u64::MAX, largest addressable), for a subset of the small cases the failure of each device command (<= 24 indices per case), repeated calls; non-trivial = genapi returned a non-empty document; distinct by request hash",
     );
     let mut rng = Rng::new(args.seed);
 
@@ -734,6 +734,60 @@ fn main() {
                 }
             }
         }
+    }
+
+    // files around / beyond the 1 MiB growth step of the XML buffer (second and third iteration
+    // of the read loop), plain, with hash, one negotiated acknowledge length each
+    let step = 1usize << 20;
+    let big: Vec<(usize, u32)> = if args.thorough() {
+        vec![(step - 1, 65548), (step, 1024), (step + 1, 65548), (2 * step, u32::MAX), (2 * step + 70_001, 65548), (3 * step + 5, 4096)]
+    } else {
+        vec![(step, 65548), (step + 1, u32::MAX), (2 * step + 70_001, 65548)]
+    };
+    for (len, max_ack) in big {
+        let text = xml_text(&mut rng, len);
+        let mut hash = [0u8; 20];
+        hash.copy_from_slice(&sha1_of(&text));
+        let file_addr = 0x4000_0000u64;
+        let mt_addr = MT_SLOT;
+        let mut mt = 1u64.to_le_bytes().to_vec();
+        mt.extend_from_slice(&entry_bytes(&EntrySpec { version: 0x0102_0003, info: 0, addr: file_addr, size: len as u64, hash }));
+        let c = Case {
+            regions: vec![
+                abrm_region(0, 200, mt_addr, 0x2_0000),
+                sbrm_region(0x2_0000, 1, 1024, max_ack, 0x3_0000),
+                Region { base: mt_addr, data: mt },
+                Region { base: file_addr, data: text },
+            ],
+            mt_addr,
+            max_ack,
+            ops: vec![None],
+        };
+        run_case(&mut rep, &c, "beyond-one-growth-step");
+    }
+
+    // a file whose first growth step ends exactly at 2^64 while the advertised size goes on:
+    // the address of the second step leaves the address space (must be an error; bytes that a
+    // wrapped address would find at address 0 are mapped so that a wrong document would surface)
+    {
+        let text = xml_text(&mut rng, step);
+        let file_addr = (u64::MAX - step as u64).wrapping_add(1);
+        let mt_addr = MT_SLOT;
+        let mut mt = 1u64.to_le_bytes().to_vec();
+        mt.extend_from_slice(&entry_bytes(&EntrySpec { version: 0x0102_0003, info: 0, addr: file_addr, size: step as u64 + 0x80, hash: [0u8; 20] }));
+        let c = Case {
+            regions: vec![
+                Region { base: 0, data: xml_text(&mut rng, 0x100) },
+                abrm_region(0, 200, mt_addr, 0x2_0000),
+                sbrm_region(0x2_0000, 1, 1024, 65548, 0x3_0000),
+                Region { base: mt_addr, data: mt },
+                Region { base: file_addr, data: text },
+            ],
+            mt_addr,
+            max_ack: 65548,
+            ops: vec![None],
+        };
+        run_case(&mut rep, &c, "growth-step-leaves-address-space");
     }
 
     let rounds = if args.thorough() { 30_000 } else { 3_000 };
